@@ -4,6 +4,14 @@ import json, os, subprocess
 V = os.path.dirname(os.path.dirname(os.path.abspath(__file__)))
 
 CHECKS = {
+ "C07": dict(cat="model_checking", ref="§6 C07",
+   technique="(a) TLA+ component spec SentStorage.tla model-checked by TLC (Frame as invariant and action property) and every maximal operation sequence replayed lock-step on both real stores (MonC07a); (b) relational TLA+ monitor MonC07 over paired runs on the real connection: stream P alone vs interleaved with another stream Q, with and without a link failure",
+   text="(a) all Store/Remove/List/Clear sequences to depth 4-5 on 2-3 streams: an operation on one stream leaves List of every other stream unchanged, results and lists equal the model. (b) P in {reliable upstream, unreliable upstream, downstream} x Q in {upstreams of every QoS, same data ids with reordered acks, closed before the cut, resume refused, downstream}: P's chunks, retransmissions, API returns, hook reports, close totals, resume/closed notifications, read results and acknowledgements are equal in both runs; nothing addressed to Q's alias shows up at P.",
+   note="P's script is made deterministic around the cut (awaits); projections are normalised for arrival order, incarnation and alias numbers; the data race in Clear (map swap under the read lock) is C09's subject."),
+ "C08": dict(cat="fault_enumeration", ref="§6 C08",
+   technique="TLA+ spec Blocking.tla (every wait as the disjunction of its wake-up events, wireConnMu and downstreams.mu with acquire/release steps, adversary, context deadlines) checked by TLC for EveryCallReturns (liveness under fairness of library steps and timers), NoOverrun, NoLockLeak; fault-enumerated scenario family replayed on the real library under a watchdog; call durations judged against their governing bounds by the TLA+ monitor MonC08",
+   text="Every request kind x broker behaviour at that message {drop, late, soon, misaddress, disconnect, refuse}; waits that only context / close timeout / keep-alive can end; completely silent broker with deadline-less calls; two concurrent calls (mutex convoy); misaddressed traffic (unknown aliases, source nodes, request and call ids); each followed by a probe sequence showing that dispatching still works. The as-coded model variants violate the properties (thorough tier sanity).",
+   note="The path-complete lock-release lemma (every control-flow path of every locking function) is not decided: it is a static-analysis statement; the model covers the two locks whose leak/convoy stalls callers. iscp.Connect has no context and is not judged. Slack = 350 ms + 50 %."),
  "C05": dict(cat="model_checking", ref="§6 C05",
    technique="TLA+ spec ConnLifecycle.tla with explicit condition-variable semantics (parked / woken waiters re-check later) model-checked by TLC in the as-coded and repaired variants; fault-enumerated, model-derived and gated (verifhook scheduling point) scenario families replayed on the real connection with real streams; traces judged by the TLA+ monitor MonC05",
    text="Design: with 2 outages, dial failures, resume refusals and an API caller, TokenPerDial, NoStreamDetached, CallersSurvive, NotificationsOnce hold in every state of the repaired model; the as-coded model yields the missed-outage counterexample, which is forced on the real code by holding the watcher goroutine at its start. Code: stream sets of both directions x dial outcome sequences x redial delay {0, 40 ms} x API request {none, during, interrupted} x optional second outage, plus TLC-simulated environment scripts; after recovery every stream is probed; the monitor checks fresh token per dial, resume per stream with original id/alias on the last incarnation or reported closed, request re-sent, notification counts.",
